@@ -25,6 +25,17 @@ Definition smem (l : str) (ls : list str) : bool := existsb (str_eqb l) ls.
 Fixpoint nodupb (ls : list str) : bool :=
   match ls with [] => true | l :: t => negb (smem l t) && nodupb t end.
 
+(* ---- grouping by language: languages in order of first appearance, each with ALL its cues in document order --- *)
+(* keep the first occurrence of every language *)
+Fixpoint uniq (ls : list str) : list str :=
+  match ls with
+  | [] => []
+  | l :: t => l :: filter (fun x => negb (str_eqb x l)) (uniq t)
+  end.
+(* tagged: (language, cues contributed) per div / paragraph, in document order *)
+Definition spec_group (tagged : list (str * list scue)) : sset :=
+  map (fun l => (l, flat_map snd (filter (fun t => str_eqb (fst t) l) tagged))) (uniq (map fst tagged)).
+
 (* ---- DFXP read: own xml:lang, else the document's, else the configured default --------------------------- *)
 Definition effective_lang (own doc : option str) (default : str) : str :=
   match own, doc with
@@ -33,11 +44,10 @@ Definition effective_lang (own doc : option str) (default : str) : str :=
   | None, None => default
   end.
 
-(* input: document language, divs (own language, cues); domain: the effective languages are distinct *)
-Definition dom_dfxp_read (default : str) (doc_lang : option str) (divs : list (option str * list scue)) : bool :=
-  nodupb (map (fun d => effective_lang (fst d) doc_lang default) divs).
+(* input: document language, divs in document order (own language, the cues of the div's own paragraphs); every
+   document is in the domain: a language met again (a further div) continues its cue list, no cue is lost *)
 Definition ok_dfxp_read (default : str) (doc_lang : option str) (divs : list (option str * list scue)) (obs : sset) : bool :=
-  sset_eqb obs (map (fun d => (effective_lang (fst d) doc_lang default, snd d)) divs).
+  sset_eqb obs (spec_group (map (fun d => (effective_lang (fst d) doc_lang default, snd d)) divs)).
 
 (* ---- DFXP write: divs = languages in order with their cue lists; force selects exactly that language ------ *)
 (* obs is a subsequence of the caption set (no cue moves, order kept) *)
@@ -56,23 +66,11 @@ Definition ok_dfxp_write (force : str) (cs obs : sset) : bool :=
    then match obs with [(l, _)] => str_eqb l force | _ => false end
    else match force with [] => sset_eqb obs cs | _ => true end).
 
-(* ---- SAMI read: paragraphs tagged with their language, in document order --------------------------------- *)
-Fixpoint first_index (l : str) (ls : list str) (i : Z) : option Z :=
-  match ls with [] => None | x :: t => if str_eqb x l then Some i else first_index l t (i + 1) end.
-Fixpoint increasing (l : list (option Z)) : bool :=
-  match l with
-  | Some a :: ((Some b :: _) as t) => (a <? b) && increasing t
-  | [Some _] => true
-  | [] => true
-  | _ => false
-  end.
-Definition ok_sami_read (tagged : list (str * scue)) (obs : sset) : bool :=
-  let tags := map fst tagged in
-  nodupb (map fst obs)
-  && forallb (fun l => smem l (map fst obs)) tags
-  && increasing (map (fun l => first_index l tags 0) (map fst obs))
-  && forallb (fun o => list_eqb cue_eqb (snd o)
-                         (map snd (filter (fun t => str_eqb (fst t) (fst o)) tagged))) obs.
+(* ---- SAMI read: paragraphs tagged with their language, in document order; a blank paragraph (only whitespace /
+        &nbsp;) counts for the order of first appearance of its language but contributes no cue --------------------- *)
+Definition ok_sami_read (tagged : list (str * scue * bool)) (obs : sset) : bool :=
+  sset_eqb obs (spec_group (map (fun t : str * scue * bool =>
+                                (fst (fst t), if snd t then @nil scue else [snd (fst t)])) tagged)).
 
 (* ---- SAMI write ------------------------------------------------------------------------------------------------ *)
 Definition spar := (str * str)%type.
